@@ -35,8 +35,8 @@ from drivers import simos_threads as sthr
 
 P_EVENTS = {"loop", "accept", "submit", "start", "jobend", "finish", "cancel", "close", "reclose",
             "reg", "connect", "send", "leave", "tick", "term", "quiescent", "exit", "crash", "pdead",
-            "wouldblock"}
-ENV_STEPS = ("connect", "send", "leave", "tick", "term", "pdead", "failsend",
+            "wouldblock", "steal"}
+ENV_STEPS = ("connect", "send", "leave", "tick", "term", "pdead", "failsend", "steal",
              "start", "handle", "finish", "crash", "cancel", "resume")
 
 
@@ -324,6 +324,12 @@ class Sim:
             if s.phase == "fresh":
                 out.append(["connect", c])
                 continue
+            if s.phase == "backlog" and c in net.backlog and not self.sent[c]:
+                # the listen queue is shared with the other workers of the pool: one of them may win the race, also
+                # after this worker's poller has already reported the listener readable
+                out.append(["steal", c])
+            if s.phase == "stolen":
+                continue
             if not s.left:
                 out.append(["leave", c])
                 if self.sent[c] < self.maxreq and self.sent[c] == self.responses(c) and not s.inbuf:
@@ -376,6 +382,8 @@ class Sim:
             self.net.send(c, b"GET /c%dr%d HTTP/1.1\r\nHost: sim\r\n" % (c, r) + extra + b"\r\n")
         elif name == "leave":
             self.net.leave(c)
+        elif name == "steal":
+            self.net.steal(c)
         elif name == "tick":
             self.clock.now += 1.0
         elif name == "term":
@@ -497,7 +505,7 @@ class RandomSched(BaseSched):
         self.budget = budget
         self.p_step = p_step
         self.allow_term = rng.random() < term_p
-        self.w = {"connect": 5, "send": 6, "leave": 2, "tick": 3, "term": 0.15, "start": 6, "handle": 5,
+        self.w = {"connect": 5, "send": 6, "leave": 2, "steal": 0.7, "tick": 3, "term": 0.15, "start": 6, "handle": 5,
                   "finish": 5, "crash": 0.25, "cancel": 0.15, "resume": 2}
         self.budgets = [-1, -1, 1, 1, 2, 2, 3, 3, 4]
         if weights:
